@@ -175,6 +175,12 @@ impl<const N: usize> CobsAccumulator<N> {
     /// # Panics
     ///
     /// Will panic if the input does not fit in the internal buffer.
+    /// Verification hook: the bytes currently buffered (`buf[..idx]`).
+    #[cfg(postcard_verif)]
+    pub fn verif_buffered(&self) -> &[u8] {
+        &self.buf[..self.idx]
+    }
+
     fn extend_unchecked(&mut self, input: &[u8]) {
         let new_end = self.idx + input.len();
         self.buf[self.idx..new_end].copy_from_slice(input);
